@@ -15,6 +15,7 @@ import (
 	"strconv"
 	"strings"
 	"sync"
+	"syscall"
 	"time"
 )
 
@@ -223,12 +224,13 @@ func main() {
 			select {
 			case err = <-done:
 			case <-time.After(limit):
-				c.Process.Signal(os.Interrupt)
-				time.Sleep(2 * time.Second)
+				c.Process.Signal(syscall.SIGQUIT) // the runtime dumps all stacks
+				time.Sleep(3 * time.Second)
 				c.Process.Kill()
 				<-done
 				lastSpec, _ := os.ReadFile(last)
-				crashes[i] = fmt.Sprintf("watchdog: worker exceeded %v; last run %s\n%s", limit, lastSpec, tail(buf.String(), 6000))
+				os.WriteFile(filepath.Join(replayDir, fmt.Sprintf("hang-%s-w%d.json", prop, i)), lastSpec, 0o644)
+				crashes[i] = fmt.Sprintf("watchdog: worker exceeded %v; last run saved as replays/hang-%s-w%d.json\n%s", limit, prop, i, tail(buf.String(), 20000))
 				return
 			}
 			b, rerr := os.ReadFile(out)
